@@ -23,13 +23,28 @@ def margin_rule_early_exits(ctx) -> List[Dict[str, Any]]:
     first_raise = min(A.seq(r) for r in raises)
     borrowed_param = fn.params[3]
     out = []
+    from .. import norm as N
+
+    def simplify(e: ast.AST) -> ast.AST:
+        while isinstance(e, ast.UnaryOp) and isinstance(e.op, ast.Not) and isinstance(e.operand, ast.UnaryOp) and isinstance(e.operand.op, ast.Not):
+            e = e.operand.operand
+        return e
+    # conditions under which the rule does not get to its raise: an early `if T: return` (exit when T), or an `if G:` around the raise
+    # (exit when not G); flags are expanded (`is_borrowing = not all(...)`), double negations removed
+    cands = []
     for n in C.walk_shallow(fn.node):
-        if not (isinstance(n, ast.If) and A.seq(n) < first_raise and any(isinstance(b, ast.Return) for b in n.body)):
-            continue
+        if isinstance(n, ast.If) and A.seq(n) < first_raise and any(isinstance(b, ast.Return) for b in n.body):
+            cands.append((n, simplify(N.expand(fn, n.test)), n.test))
+    first = min(raises, key=A.seq)
+    for a in A.ancestors(first):
+        if isinstance(a, ast.If):
+            in_body = any(A.is_within(first, b) for b in a.body)
+            t_ = N.expand(fn, a.test)
+            cands.append((a, simplify(t_ if not in_body else ast.UnaryOp(op=ast.Not(), operand=t_)), a.test))
+    for n, t, t_orig in cands:
         ent: Dict[str, Any] = {"node": n, "table": None, "fn": fn}
-        t = n.test
         # tests over the computed margin level itself are part of the raise guard, not a frame-rule exit
-        names = {x.id for x in ast.walk(t) if isinstance(x, ast.Name)}
+        names = {x.id for x in ast.walk(t_orig) if isinstance(x, ast.Name)}
         lvl = {s.target.id for s in A.stores(fn) if isinstance(s.target, ast.Name) and isinstance(s.node, ast.Assign)
                and isinstance(s.node.value, ast.Call) and (A.call_name(s.node.value) or "").endswith("._calculate_margin_level")}
         if names and names <= (lvl | {"Decimal"}):
@@ -47,6 +62,9 @@ def margin_rule_early_exits(ctx) -> List[Dict[str, Any]]:
                 def side(e: ast.AST) -> Optional[str]:
                     if isinstance(e, ast.Name) and e.id == amt:
                         return "new"
+                    if isinstance(e, ast.Call) and isinstance(e.func, ast.Attribute) and e.func.attr == "get" and e.args \
+                            and isinstance(e.args[0], ast.Name) and e.args[0].id == sym and (A.dotted(e.func.value) or "").endswith("account_balances.borrowed"):
+                        return "old"
                     if isinstance(e, ast.Call) and isinstance(e.func, ast.Attribute) and e.func.attr == "get" and e.args \
                             and isinstance(e.args[0], ast.Name) and e.args[0].id == sym and isinstance(e.func.value, ast.Name):
                         # the map must be the committed borrowed map
